@@ -96,6 +96,11 @@ ConvTrigger(c) ==
   IF c.kind \in {"general", "grouped"} /\ c.batch > 1 /\ \E o \in 1..c.o : EffWz(c, o) # 0
   THEN "prepacked_kernel_with_nonzero_zero_point"
   ELSE IF Padded(c) /\ EffXz(c) # 0 THEN "padding_with_nonzero_input_zero_point"
+  \* the rows added to round K = C/g*kh*kw up to a multiple of 4 are "masked" by offsets just past
+  \* the image, which patches starting in the top-left padding bring back into range
+  ELSE IF c.kind \in {"general", "grouped"} /\ (c.cg * c.kh * c.kw) % 4 # 0 /\ c.pt > 0 /\ c.pl > 0
+          /\ \E o \in 1..c.o : EffWz(c, o) # 0
+  THEN "depth_padding_rows_unmasked_in_top_left_padding"
   ELSE IF c.wz_kind = "vector" /\ ~AllEq(c.wz) /\ c.og > c.mr THEN "zero_points_differ_across_panels"
   ELSE "other"
 ConvSig(c, pred) ==
